@@ -326,10 +326,17 @@ def detect_line_endings(text: str) -> str:
     """Return one of '\n', '\r' or '\r\n' depending on the line endings used in
     *text*. Return os.linesep if there are no line endings.
     """
-    line_endings = ["\r\n", "\r", "\n"]
-    for line_ending in line_endings:
-        if line_ending in text:
-            return line_ending
+    # The most frequent line break decides. A stray carriage return in an LF
+    # file must not turn the whole file into a CR file.
+    crlf = text.count("\r\n")
+    counts = {
+        "\r\n": crlf,
+        "\n": text.count("\n") - crlf,
+        "\r": text.count("\r") - crlf,
+    }
+    line_ending = max(counts, key=lambda key: counts[key])
+    if counts[line_ending]:
+        return line_ending
     return os.linesep
 
 
